@@ -202,7 +202,7 @@ func (p *vAbProducer) samplePackets(d time.Duration) ([]*packets.Packet, error) 
 	return out, nil
 }
 
-func (p *vAbProducer) ReadAllPackets() ([]*packets.Packet, error) {
+func (p *vAbProducer) ReadAllPackets() (out []*packets.Packet, err error) {
 	run := p.run
 	vFlowWait(run.backlog)
 	run.mu.Lock()
@@ -213,13 +213,18 @@ func (p *vAbProducer) ReadAllPackets() ([]*packets.Packet, error) {
 		return nil, nil
 	}
 	s := run.s
-	var out []*packets.Packet
 	deliver := func(gi, idx int) {
 		if q := run.makePacket(gi, idx); q != nil {
 			out = append(out, q)
 			run.delivered[gi] = append(run.delivered[gi], idx)
 		}
 	}
+	var extLast *packets.Packet
+	defer func() {
+		if extLast != nil {
+			out = append(out, extLast)
+		}
+	}()
 	if run.extEvery > 0 && p.id == 0 && t%run.extEvery == 0 {
 		times := make([]uint64, 1+t%3)
 		for i := range times {
@@ -227,7 +232,11 @@ func (p *vAbProducer) ReadAllPackets() ([]*packets.Packet, error) {
 		}
 		run.extSeq++
 		if q, err := vAbExtTrigPacket(run.extSeq, times); err == nil && q.IsExternalTrigger() {
-			out = append(out, q)
+			if run.extSeq%2 == 0 {
+				out = append(out, q) // first in this read's batch
+			} else {
+				extLast = q // last in the batch: the data packets of the tick are handled before it
+			}
 			run.extSent += len(times)
 			atomic.AddInt64(&vAbExtSentTotal, int64(len(times)))
 		} else if run.buildErr == nil {
